@@ -43,7 +43,7 @@ var chainFns = map[string]function.Function{
 	"concat": stdlib.ConcatFunc, "merge": stdlib.MergeFunc, "flatten": stdlib.FlattenFunc, "slice": stdlib.SliceFunc,
 	"keys": stdlib.KeysFunc, "values": stdlib.ValuesFunc, "zipmap": stdlib.ZipmapFunc, "reverselist": stdlib.ReverseListFunc,
 	"coalescelist": stdlib.CoalesceListFunc, "setunion": stdlib.SetUnionFunc, "chunklist": stdlib.ChunklistFunc,
-	"distinct": stdlib.DistinctFunc, "element": stdlib.ElementFunc, "lookup": stdlib.LookupFunc, "setproduct": stdlib.SetProductFunc,
+	"distinct": stdlib.DistinctFunc, "element": stdlib.ElementFunc, "lookup": stdlib.LookupFunc,
 }
 
 var chainFnNames = func() []string {
@@ -140,11 +140,24 @@ func checkChain(c *facet.Ctx, in ChainIn) error {
 			args = append(args, cty.NumberIntVal(int64(s.N%3+1)))
 		case "lookup":
 			args = append(args, cty.StringVal(s.Attr), pick(s.B))
-		case "concat", "merge", "zipmap", "setunion", "coalescelist", "setproduct":
+		case "concat", "merge", "zipmap", "setunion", "coalescelist":
 			args = append(args, pick(s.B))
 			if s.C%3 == 0 {
 				args = append(args, pick(s.C))
 			}
+		}
+		// chains of concat / flatten double their operands: values that have
+		// grown large are not fed back (size is a bound of the generator, not
+		// an oracle)
+		tooBig := false
+		for _, a := range args {
+			if u, _ := a.Unmark(); u.IsKnown() && !u.IsNull() && u.CanIterateElements() && u.LengthInt() > 48 {
+				tooBig = true
+			}
+		}
+		if tooBig {
+			c.Label("skipped-large-operand")
+			continue
 		}
 		guardedPanic(func() { _, _ = f.ReturnTypeForValues(args) })
 		var r cty.Value
